@@ -52,7 +52,7 @@ func c14NilPointers(c *core.Ctx) {
 			}
 			return true
 		})
-		// (b) pointer parameters of exported methods (not variadic lists)
+		// (b) pointer parameters of exported methods
 		if fd.Obj.Exported() {
 			sig := fd.Obj.Type().(*types.Signature)
 			for i := 0; i < sig.Params().Len(); i++ {
@@ -60,6 +60,31 @@ func c14NilPointers(c *core.Ctx) {
 				if pt, isPtr := pv.Type().(*types.Pointer); isPtr {
 					if n, _ := core.StructOf(pt); n != nil && core.InModule(n.Obj().Pkg()) {
 						work = append(work, item{fd, pv, "argument " + pv.Name() + " of the exported " + fd.Name(), 0})
+					}
+				}
+			}
+		}
+		// (c) the elements of a variadic list of pointers (Verify(keys...): Verify(nil) is a list
+		// holding one nil), wherever the list is ranged over — here or in the unexported methods
+		// it is handed on to with `keys...`
+		{
+			sig := fd.Obj.Type().(*types.Signature)
+			if sig.Variadic() {
+				pv := sig.Params().At(sig.Params().Len() - 1)
+				if sl, ok := pv.Type().(*types.Slice); ok {
+					if pt, isPtr := sl.Elem().(*types.Pointer); isPtr {
+						if n, _ := core.StructOf(pt); n != nil && core.InModule(n.Obj().Pkg()) {
+							ast.Inspect(fd.Decl.Body, func(nd ast.Node) bool {
+								rs, ok := nd.(*ast.RangeStmt)
+								if !ok || rs.Value == nil || core.VarOf(info, rs.X) != pv {
+									return true
+								}
+								if v := core.VarOf(info, rs.Value); v != nil {
+									work = append(work, item{fd, v, "element of the variadic argument " + pv.Name() + " of " + fd.Name(), 0})
+								}
+								return true
+							})
+						}
 					}
 				}
 			}
